@@ -135,13 +135,25 @@ pub fn hexs(v: &[u32]) -> String {
 /// Differential oracle: two scenes that the property says are equivalent must leave
 /// bit-identical surfaces. Case text: "<scene A> || <scene B>".
 pub fn diff_scenes(sig: &str, a: &Scene, b: &Scene) -> Result<(u64, bool), Violation> {
+    diff_scenes_tol(sig, a, b, 0)
+}
+
+/// largest per-channel difference of two pixels
+pub fn chan_diff(p: u32, q: u32) -> u32 {
+    (0..4).map(|k| (((p >> (8 * k)) & 0xff) as i32 - ((q >> (8 * k)) & 0xff) as i32).unsigned_abs()).max().unwrap_or(0)
+}
+
+/// as diff_scenes, but two pixels count as equal when no channel differs by more than `tol`
+/// (tol = 17 is one of the sixteen coverage cells of a pixel: used where the property does not
+/// promise bit-identical results, e.g. stroke under T vs fill of the transformed outline)
+pub fn diff_scenes_tol(sig: &str, a: &Scene, b: &Scene, tol: u32) -> Result<(u64, bool), Violation> {
     let case = format!("{} || {}", a, b);
     let ra = render(a);
     let rb = render(b);
     match (ra, rb) {
         (Ok(pa), Ok(pb)) => {
-            if pa != pb {
-                let i = (0..pa.len().min(pb.len())).find(|&i| pa[i] != pb[i]).unwrap_or(0);
+            if pa.len() != pb.len() || (0..pa.len()).any(|i| chan_diff(pa[i], pb[i]) > tol) {
+                let i = (0..pa.len().min(pb.len())).find(|&i| chan_diff(pa[i], pb[i]) > tol).unwrap_or(0);
                 Err(Violation::new(format!("{}/pixels-differ", sig), case, format!("pixel index {} ({},{}): A {:#010x} vs B {:#010x}\nA: {}\nB: {}", i, i as i32 % a.w.max(1), i as i32 / a.w.max(1), pa.get(i).copied().unwrap_or(0), pb.get(i).copied().unwrap_or(0), hexs(&pa), hexs(&pb))))
             } else {
                 let changed = pa != a.dst.pixels(a.w, a.h);
